@@ -95,18 +95,19 @@ type Session struct {
 	Port int
 	Args []string
 
-	cmd    *exec.Cmd
-	master *os.File
-	mu     sync.Mutex
-	screen []byte
-	crash  string
-	stdout bytes.Buffer
-	outEnd chan struct{}
-	done   chan struct{} // closed when the process has been reaped
-	code   int
-	marker int64
-	nonce  string
-	exited atomic.Bool
+	cmd     *exec.Cmd
+	master  *os.File
+	mu      sync.Mutex
+	screen  []byte
+	crash   string
+	stdout  bytes.Buffer
+	outEnd  chan struct{}
+	done    chan struct{} // closed when the process has been reaped
+	code    int
+	marker  int64
+	nonce   string
+	exited  atomic.Bool
+	relOnce sync.Once
 }
 
 func openPty(cols, rows int) (master *os.File, slave *os.File, err error) {
@@ -143,25 +144,52 @@ func openPty(cols, rows int) (master *os.File, slave *os.File, err error) {
 }
 
 var (
-	portMu    sync.Mutex
-	portsUsed = map[int]bool{}
+	portMu     sync.Mutex
+	portsUsed  = map[int]bool{}
+	portsFreed []int // ports of closed sessions, oldest first; the oldest become available again beyond 4000 entries
 )
+
+// releasePort: the port of a closed session may be handed out again, but not soon (the 4000 most recently released
+// ones stay blocked).  Without this a long run uses up the numbers the kernel hands out for bind(0) -- only the odd
+// half of the ephemeral range, about 14 000 -- and sessions end up with port 0.
+func releasePort(p int) {
+	if p == 0 {
+		return
+	}
+	portMu.Lock()
+	portsFreed = append(portsFreed, p)
+	if len(portsFreed) > 4000 {
+		delete(portsUsed, portsFreed[0])
+		portsFreed = portsFreed[1:]
+	}
+	portMu.Unlock()
+}
 
 // freePort asks the kernel for an unused port; ports already handed out by this process are skipped.
 func freePort() int {
 	portMu.Lock()
 	defer portMu.Unlock()
-	for try := 0; try < 20; try++ {
+	// A port that was handed out before is kept bound until a fresh one has been found: this kernel gives the port
+	// of a listener that has just been closed out again and again (seen: the same number 17 times in a row), so that
+	// closing before the next attempt made all 20 attempts collide in long runs and the session got port 0.
+	var held []net.Listener
+	defer func() {
+		for _, l := range held {
+			l.Close()
+		}
+	}()
+	for try := 0; try < 200; try++ {
 		l, err := net.Listen("tcp", "127.0.0.1:0")
 		if err != nil {
 			return 0
 		}
 		p := l.Addr().(*net.TCPAddr).Port
-		l.Close()
 		if !portsUsed[p] {
 			portsUsed[p] = true
+			l.Close()
 			return p
 		}
+		held = append(held, l)
 	}
 	return 0
 }
@@ -421,6 +449,7 @@ func (s *Session) Close() {
 	}
 	s.master.Close()
 	os.RemoveAll(s.Dir)
+	s.relOnce.Do(func() { releasePort(s.Port) })
 }
 
 // ---- --listen client (raw HTTP/1.1 over TCP; the server closes the connection after one answer) ----
